@@ -4,10 +4,12 @@ import (
 	"context"
 	"encoding/json"
 	"fmt"
+	"math/big"
 	"strings"
 	"testing"
 
 	"github.com/Masterminds/semver/v3"
+	"github.com/NethermindEth/juno/core"
 	"github.com/NethermindEth/juno/core/crypto"
 	"github.com/NethermindEth/juno/core/felt"
 	"github.com/NethermindEth/juno/jsonrpc"
@@ -307,15 +309,37 @@ func TestPropRPCStorageProof(t *testing.T) {
 			}
 			otherClasses = append(otherClasses, gen.F(0xc1a55), gen.F(0))
 			queries := 0
-			for bi := 0; bi < nblocks; bi++ {
-				b := ch.Next(rt)
+			// In half of the cases one more block, built here, follows the generated ones: it writes the SAME values to 2 or 4
+			// adjacent slots at two places of one contract's storage (two identical sub-tries under different edges), and the
+			// request then asks for several of those slots at once (one node set per contract on the server side).
+			withNb := rapid.Bool().Draw(rt, "neighbourhoodBlock")
+			nbSlots := map[felt.Felt][]felt.Felt{}
+			total := nblocks
+			if withNb {
+				total++
+			}
+			for bi := 0; bi < total; bi++ {
+				var b *gen.Block
+				if bi < nblocks {
+					b = ch.Next(rt)
+				} else {
+					var a felt.Felt
+					var slots []felt.Felt
+					b, a, slots = neighbourhoodBlock(rt, u, ch)
+					ch.Blocks = append(ch.Blocks, b)
+					nbSlots[a] = slots
+					c.Label("neighbourhood-block")
+					if _, diff := dupSubtries(251, b.Post.Contracts[a].Storage); diff {
+						c.Label("duplicate-subtrie-under-different-edges")
+					}
+				}
 				c.Fp("block %d %s", bi, gen.DiffString(b.SU.StateDiff))
 				for _, n := range nodes {
 					if err := n.Store(b); err != nil {
 						c.Violation("valid-block-rejected", "%s rejected valid block %d: %v", n.Backend(), b.Num(), err)
 					}
 				}
-				if bi < nblocks-1 && rapid.IntRange(0, 2).Draw(rt, "queryHere") != 0 {
+				if bi < total-1 && rapid.IntRange(0, 2).Draw(rt, "queryHere") != 0 {
 					continue
 				}
 				st := b.Post
@@ -350,7 +374,34 @@ func TestPropRPCStorageProof(t *testing.T) {
 					}
 					// (while the order finding is listed as known the order oracle below is replaced by "some bijection
 					// verifies"; generation is unchanged)
-					for _, a := range subset(rt, existing, 3, "storageContracts") {
+					sc := subset(rt, existing, 3, "storageContracts")
+					for a := range nbSlots { // at most one entry
+						listed := false
+						for _, x := range sc {
+							listed = listed || x.Equal(&a)
+						}
+						if !listed && rapid.IntRange(0, 3).Draw(rt, "askNb") > 0 {
+							sc = append(sc, a)
+						}
+					}
+					for _, a := range sc {
+						if slots, ok := nbSlots[a]; ok {
+							// several slots of the copied neighbourhoods in one request (plus a few others)
+							ks := rapid.Permutation(slots).Draw(rt, "nbSlotOrder")
+							ks = ks[:rapid.IntRange(2, len(ks)).Draw(rt, "nbSlotCount")]
+							for _, k := range subset(rt, append(append([]felt.Felt{}, u.Keys...), extraKeys...), 2, "nbOtherSlots") {
+								dup := false
+								for _, x := range ks {
+									dup = dup || x.Equal(&k)
+								}
+								if !dup {
+									ks = append(ks, k)
+								}
+							}
+							req.storage = append(req.storage, storageReq{Contract: a, Keys: ks})
+							c.Label("request-several-slots-of-copied-neighbourhoods")
+							continue
+						}
 						keyPool := append(append([]felt.Felt{}, u.Keys...), extraKeys...)
 						if ct := st.Contracts[a]; len(ct.Storage) > 0 {
 							ks := sortedKeys(ct.Storage)
@@ -566,6 +617,70 @@ func TestPropRPCStorageProof(t *testing.T) {
 				return map[string]any{"chain": bl, "queries": queries}
 			})
 		})
+}
+
+// neighbourhoodBlock builds (without the generator) the next block of ch: an otherwise empty block whose state diff
+// writes values v0..v(size-1) to slots k..k+size-1 and the same values to k'..k'+size-1 of one contract (an existing
+// contract, or system contract 0x1 which needs no deployment). Sealed with the reference root like generated blocks.
+func neighbourhoodBlock(rt *rapid.T, u *gen.Universe, ch *gen.Chain) (*gen.Block, felt.Felt, []felt.Felt) {
+	last := ch.Blocks[len(ch.Blocks)-1]
+	pre := last.Post
+	target := gen.F(1)
+	if live := pre.SortedContracts(); len(live) > 0 && rapid.IntRange(0, 3).Draw(rt, "nbExisting") > 0 {
+		target = rapid.SampledFrom(live).Draw(rt, "nbContract")
+	}
+	lg := rapid.IntRange(1, 2).Draw(rt, "nbLog")
+	size := 1 << lg
+	base := felt2big(ptrF(rapid.SampledFrom(append([]felt.Felt{gen.F(0), gen.F(0x100)}, u.Keys...)).Draw(rt, "nbBase")))
+	base.Rsh(base, uint(lg)).Lsh(base, uint(lg))
+	other := new(big.Int).Set(base)
+	// two flipped bits: the two copies then hang off different edges (see drawModel)
+	flipped := map[int]bool{}
+	for i, n := 0, rapid.SampledFrom([]int{1, 2, 2, 2}).Draw(rt, "nbFlips"); i < n; i++ {
+		bit := rapid.IntRange(lg, 250).Draw(rt, "nbBit")
+		if rapid.Bool().Draw(rt, "nbNear") {
+			bit = rapid.IntRange(lg, lg+4).Draw(rt, "nbBitNear")
+		}
+		if !flipped[bit] {
+			flipped[bit] = true
+			other.SetBit(other, bit, other.Bit(bit)^1)
+		}
+	}
+	d := core.EmptyStateDiff()
+	writes := map[felt.Felt]*felt.Felt{}
+	var slots []felt.Felt
+	vals := make([]felt.Felt, size)
+	for i := range vals {
+		vals[i] = rapid.SampledFrom(tinyValues).Draw(rt, "nbVal")
+	}
+	for _, b := range []*big.Int{base, other} {
+		for i := 0; i < size; i++ {
+			k := big2felt(new(big.Int).Add(b, big.NewInt(int64(i))))
+			v := vals[i]
+			writes[k] = &v
+			slots = append(slots, k)
+		}
+	}
+	d.StorageDiffs[target] = writes
+	num := uint64(len(ch.Blocks))
+	post := pre.Clone()
+	if err := post.Apply(num, last.B.ProtocolVersion, &d, nil, u.CasmV2Of); err != nil {
+		stats.HarnessError("neighbourhood block: %v", err)
+	}
+	h := *last.B.Header
+	h.Hash, h.GlobalStateRoot, h.Signatures = nil, nil, nil
+	h.ParentHash = last.B.Hash
+	h.Number = num
+	h.Timestamp = last.B.Timestamp + 1
+	h.TransactionCount, h.EventCount = 0, 0
+	h.EventsBloom = core.EventsBloom(nil)
+	b := &gen.Block{
+		B:       &core.Block{Header: &h, Transactions: []core.Transaction{}, Receipts: []*core.TransactionReceipt{}},
+		SU:      &core.StateUpdate{StateDiff: &d},
+		Classes: map[felt.Felt]core.ClassDefinition{}, Pre: pre, Post: post, Tags: map[string]bool{"neighbourhood": true},
+	}
+	gen.Seal(b, u.Net)
+	return b, target, slots
 }
 
 func mustJSON(v any) string {
